@@ -8,6 +8,7 @@ import (
 	"encoding/binary"
 	"errors"
 	"fmt"
+	"runtime"
 	"sort"
 
 	"github.com/ava-labs/avalanchego/database"
@@ -26,6 +27,9 @@ const (
 	OpPut  uint8 = 1
 	OpDel  uint8 = 2
 	OpFail uint8 = 3
+	// OpYield has no effect on state: it yields the processor Val[0] times so that
+	// generated blocks explore more interleavings of concurrently running transactions.
+	OpYield uint8 = 4
 )
 
 var ErrProgFail = errors.New("prog action: fail op")
@@ -189,15 +193,18 @@ func UnmarshalProgAction(b []byte) (chain.Action, error) {
 	no := int(r.u16())
 	for i := 0; i < no && r.err == nil; i++ {
 		kind := r.u8()
-		if kind > OpFail {
+		if kind > OpYield {
 			return nil, errors.New("prog action: bad op kind")
 		}
 		kl := int(r.u16())
 		k := append([]byte{}, r.take(kl)...)
 		vl := int(r.u32())
 		v := append([]byte{}, r.take(vl)...)
-		if kind != OpPut && vl != 0 {
+		if kind != OpPut && kind != OpYield && vl != 0 {
 			return nil, errors.New("prog action: value on non-put op")
+		}
+		if kind == OpYield && (vl != 1 || kl != 0) {
+			return nil, errors.New("prog action: malformed yield op")
 		}
 		if kind == OpFail && kl != 0 {
 			return nil, errors.New("prog action: key on fail op")
@@ -247,6 +254,14 @@ func (a *ProgAction) Execute(ctx context.Context, _ chain.Rules, mu state.Mutabl
 			}
 		case OpFail:
 			return nil, ErrProgFail
+		case OpYield:
+			n := 1
+			if len(o.Val) == 1 {
+				n = int(o.Val[0])
+			}
+			for j := 0; j < n; j++ {
+				runtime.Gosched()
+			}
 		}
 	}
 	return out, nil
